@@ -718,6 +718,12 @@ func main() {
 			scens = append(scens, scen{Kind: "tostl", Batches: [][]int{bs}, Bound: -1})
 		}
 	}
+	// every total up to the same bound through the SVG writer (the drawing object keeps its lines in slices of its own)
+	for n := 1; n <= vlib.Pick(c, 1400, 4100); n++ {
+		if n <= 300 || n%7 == 0 || (n&(n-1)) == 0 || ((n-1)&(n-2)) == 0 {
+			scens = append(scens, scen{Kind: "tosvg", Batches: [][]int{{n}}, Bound: -1})
+		}
+	}
 	for _, n := range []int{0, 1, 2, 5, T - 1, T, T + 1, 2*T - 1, 2 * T, 2*T + 3, 1000, 1310, 4096} {
 		scens = append(scens, scen{Kind: "savestl", Batches: [][]int{{n}}, Bound: -1}, scen{Kind: "savestl", Batches: [][]int{{n}}, Before: []int{300}, Bound: -1})
 	}
